@@ -124,6 +124,22 @@ pub fn gate(img: &[u8], st: &mut Stats) {
                 let _ = f.as_inner();
             }
         }
+        // the same bytes arriving through map_data on a container that was opened from good bytes
+        GOOD.with(|good| {
+            if let Ok(f0) = Fst::new(good.clone()) {
+                if let Ok(g) = f0.map_data(|_| img.to_vec()) {
+                    let _ = (g.len(), g.is_empty(), g.fst_type(), g.size());
+                    let _ = g.as_bytes().len();
+                    let _ = g.verify();
+                }
+            }
+            if let Ok(m0) = Map::new(good.clone()) {
+                if let Ok(m) = m0.map_data(|_| img.to_vec()) {
+                    let _ = (m.len(), m.is_empty());
+                    let _ = m.as_fst().verify();
+                }
+            }
+        });
         if let Ok(m) = Map::new(img) {
             let _ = (m.len(), m.is_empty());
             let _ = m.as_fst().verify();
@@ -157,6 +173,44 @@ pub fn gate(img: &[u8], st: &mut Stats) {
                 st.first_panic = Some(format!("len={} hex={} msg={}", img.len(), hexs(img), msg));
             }
         }
+    }
+}
+
+thread_local! {
+    /// a small valid FST (hand-assembled bytes of the version-3 set {""}: 16-byte header, len=1, root=0, checksum)
+    static GOOD: Vec<u8> = good_bytes();
+}
+
+fn good_bytes() -> Vec<u8> {
+    let mut v = vec![];
+    v.extend_from_slice(&3u64.to_le_bytes());
+    v.extend_from_slice(&0u64.to_le_bytes());
+    v.extend_from_slice(&1u64.to_le_bytes());
+    v.extend_from_slice(&0u64.to_le_bytes());
+    let c = masked_crc32c(&v);
+    v.extend_from_slice(&c.to_le_bytes());
+    v
+}
+
+/// bit-at-a-time CRC-32C + Snappy masking (independent of the crate)
+pub fn masked_crc32c(data: &[u8]) -> u32 {
+    let mut c = !0u32;
+    for &b in data {
+        c ^= b as u32;
+        for _ in 0..8 {
+            c = if c & 1 == 1 { (c >> 1) ^ 0x82F63B78 } else { c >> 1 };
+        }
+    }
+    let c = !c;
+    ((c >> 15) | (c << 17)).wrapping_add(0xA282EAD8)
+}
+
+/// make the trailing 4 bytes the correct checksum of the rest (so that verify() gets past the comparison)
+pub fn fix_checksum(img: &mut Vec<u8>) {
+    if img.len() >= 4 {
+        let n = img.len() - 4;
+        let c = masked_crc32c(&img[..n]);
+        img[n..].copy_from_slice(&c.to_le_bytes());
     }
 }
 
